@@ -278,7 +278,7 @@ section
 variable (T : Stat) {s : Store} {out : CSem2.Outcome} {lp : Bool × Bool} {brk cont : String} {c : SCtx}
   {nd nd' : Nat} {pre post : List Item} {env : Env} {M : Mem}
 
-theorem sim_switch (n : Nat) (ih : ∀ m, m ≤ n → SimStmt T m) (e : Expr) (b : Stmt)
+theorem sim_switch (n : Nat) (hc : CallOK T n) (ih : ∀ m, m ≤ n → SimStmt T m) (e : Expr3) (b : Stmt)
     (hex : exec T.S.cs T.P (n + 1) s (.switch_ e b) = some out) (hfr : frag T.P T.cnts (.switch_ e b) = true)
     (hwt : Stmt.wt T.vtys T.ret lp.1 lp.2 nd (.switch_ e b) = some nd') (hp : Pos T c nd pre)
     (hext : Ext T (funcstmt T.S.cs brk cont (.switch_ e b) c).ctx)
@@ -287,18 +287,20 @@ theorem sim_switch (n : Nat) (ih : ∀ m, m ≤ n → SimStmt T m) (e : Expr) (b
     (inv : SInv T.M0 T.S.cs T.cnts T.σ T.vtys s env M) :
     Post T lp brk cont (T.at env M pre) (pre ++ (funcstmt T.S.cs brk cont (.switch_ e b) c).items)
       (funcstmt T.S.cs brk cont (.switch_ e b) c).ctx out := by
-  simp only [frag] at hfr
+  simp only [frag, Bool.and_eq_true] at hfr
+  have hfe : efrag T e := by simp only [efrag, Bool.and_eq_true]; exact hfr.1
+  have hfr := hfr.2
   simp only [Stmt.wt] at hwt
   split at hwt
-  · rename_i hc
-    obtain ⟨hwe, hpr, hsl, _, _, _⟩ := hc
+  · rename_i hcw
+    obtain ⟨hwe, hpr, hsl, _, _, _⟩ := hcw
     obtain ⟨hnb, hcb⟩ := wt_noDead _ _ b _ _ _ _ hwt
     simp only [exec, Option.bind_eq_some_iff] at hex
     obtain ⟨v, hev, hex⟩ := hex
     have hj1 : (c.addBlocks 2).jump = none := hp.jump
-    simp only [funcstmt, lowerE_eq T.S.cs hj1] at hext hits ⊢
-    have ge := exprOut_good T.S.cs (c.addBlocks 2) e
-    generalize hoe : exprOut T.S.cs (c.addBlocks 2) e = oe at *
+    simp only [funcstmt, lowerE3_eq T.S.cs hj1] at hext hits ⊢
+    have ge := exprOut3_good T.S.cs (c.addBlocks 2) e
+    generalize hoe : exprOut3 T.S.cs (c.addBlocks 2) e = oe at *
     have gb := funcstmt_good' T.S.cs b (lblName "switch_join" (c.blockid + 2)) cont
       (((c.addBlocks 2).upd oe.ctx).setJump (.jmp (lblName "switch_cond" (c.blockid + 1)))) (Or.inr hsl) hnb
     have hcs := cases_items T.S.cs (lblName "switch_join" (c.blockid + 2)) cont b
@@ -408,11 +410,9 @@ theorem sim_switch (n : Nat) (ih : ∀ m, m ≤ n → SimStmt T m) (e : Expr) (b
       refine ⟨hp.jump, hp.cur, ?_, hp.nslots, hp.le⟩
       obtain ⟨name, j, h1, h2⟩ := hp.curOK
       exact ⟨name, j, h1, by unf; unf at h2; omega⟩
-    obtain ⟨k1, env1, r1, hreach1, inv1, _, hval1, hrep1⟩ := sim_exprOut T hpE e (by rw [hoe]; exact hexte)
-      hwe hev (by rw [hoe]; exact hitsE) inv
+    obtain ⟨k1, env1, r1, hreach1, inv1, _, hval1, hrep1, hrange⟩ := sim_exprOut3 T n hc hpE e
+      (by rw [hoe]; exact hexte) hwe hfe hev (by rw [hoe]; exact hitsE) inv
     rw [hoe] at hreach1 hval1
-    have hrange := evalE_inRange T.S.cs (T.vtys.take nd) s
-      (fun j t' v' ht hv' => inv.range j t' v' (take_sub ht).1 hv') e v hwe hev
     -- jump to `switch_cond`
     obtain ⟨st2, hs2, hat2⟩ := step_jmp_item T hitsJ0 hccond env1 M
     have hst2 := atLabel_item T hitsC hat2
